@@ -26,6 +26,20 @@ type Scope struct {
 	Fn   *Func // enclosing declared function
 	Name string
 	Type *ast.FuncType
+	xg   *xgraph
+	// Anchor: the scope was resolved as a rule anchor (Ctx.S): it is analysed together with
+	// its private helpers (inline.go). Scopes made while iterating over all functions are not.
+	Anchor bool
+}
+
+// walk visits the scope's body and, for an anchor, the bodies of its private helpers.
+func (s *Scope) walk(f func(ast.Node) bool) {
+	walkAll(s.Body, f)
+	if s.Anchor && s.Fn != nil && s.Body == s.Fn.Decl.Body {
+		for _, h := range s.P.privateHelpers(s.Fn) {
+			walkAll(h.Decl.Body, f)
+		}
+	}
 }
 
 func (p *Prog) ScopeOf(fn *Func) *Scope {
@@ -58,6 +72,8 @@ type Query struct {
 	// OnlyNilErrorReturns (with ExitIsTarget): only returns that may yield a nil error
 	// count (returns whose last result is syntactically a non-nil error value are skipped).
 	OnlyNilErrorReturns bool
+	// WholeFacts: also hand the undecomposed branch conditions to Exempt (for partial evaluation).
+	WholeFacts bool
 	// StrictOK: a barrier call that appears directly as a result of a return statement does
 	// NOT count as passed (used when the target is that very return and carries data).
 	StrictOK bool
@@ -82,6 +98,11 @@ type pstate struct {
 	started bool
 	kind    uint8 // 0 clear, 1 pending, 2 passed
 	obj     types.Object
+	// nilness of one variable known from the way a spliced helper returned: ret is carried
+	// over the return edge (1 non-nil, 2 nil) until the binding statement ran, then nn/nnVal
+	ret   int8
+	nn    types.Object
+	nnVal int8
 }
 
 const (
@@ -123,11 +144,11 @@ func (s *Scope) blockFacts(b *cfg.Block, succ int) []Fact {
 	switch t.Kind {
 	case cfg.KindIfThen:
 		if is, ok := t.Stmt.(*ast.IfStmt); ok && last == ast.Node(is.Cond) {
-			return implies(is.Cond, branch)
+			return append(implies(is.Cond, branch), Fact{Expr: is.Cond, Val: branch, Whole: true})
 		}
 	case cfg.KindForBody:
 		if fs, ok := t.Stmt.(*ast.ForStmt); ok && fs.Cond != nil && last == ast.Node(fs.Cond) {
-			return implies(fs.Cond, branch)
+			return append(implies(fs.Cond, branch), Fact{Expr: fs.Cond, Val: branch, Whole: true})
 		}
 	case cfg.KindSwitchCaseBody:
 		cc, _ := t.Stmt.(*ast.CaseClause)
@@ -140,7 +161,7 @@ func (s *Scope) blockFacts(b *cfg.Block, succ int) []Fact {
 					tag := s.switchTag(cc)
 					if tag == nil {
 						// tagless switch: case expr is a boolean condition
-						return implies(e, branch)
+						return append(implies(e, branch), Fact{Expr: e, Val: branch, Whole: true})
 					}
 					return []Fact{{Expr: e, Val: branch, Tag: tag}}
 				}
@@ -258,23 +279,27 @@ func (s *Scope) knownNonNilAt(o types.Object, at ast.Node) bool {
 // Run executes the query and returns every target reachable without passing the barrier.
 func (s *Scope) Run(q Query) QResult {
 	var res QResult
-	g := s.G
-	if g == nil || len(g.Blocks) == 0 {
+	if s.G == nil || len(s.G.Blocks) == 0 {
 		return res
 	}
+	g := s.X()
 	// count sites
 	seenT := map[ast.Node]bool{}
-	for _, b := range g.Blocks {
-		for _, top := range b.Nodes {
+	seenB := map[ast.Node]bool{}
+	seenS := map[ast.Node]bool{}
+	for _, b := range g.blocks {
+		for _, top := range b.nodes {
 			events(top, func(sub ast.Node) {
 				if q.Target != nil && q.Target(sub, top) && !seenT[sub] {
 					seenT[sub] = true
 					res.TargetSites++
 				}
-				if q.Barrier != nil && q.Barrier(sub, top) {
+				if q.Barrier != nil && !seenB[sub] && q.Barrier(sub, top) {
+					seenB[sub] = true
 					res.BarrierSites++
 				}
-				if q.Start != nil && q.Start(sub, top) {
+				if q.Start != nil && !seenS[sub] && q.Start(sub, top) {
+					seenS[sub] = true
 					res.StartSites++
 				}
 			})
@@ -298,14 +323,19 @@ func (s *Scope) Run(q Query) QResult {
 	pathOf := func(i int) []string {
 		var rev []string
 		for ; i >= 0; i = queue[i].prev {
-			b := g.Blocks[queue[i].st.blk]
+			xb := g.blocks[queue[i].st.blk]
+			b := xb.b
 			pos := "?"
-			if len(b.Nodes) > 0 {
-				pos = s.P.Pos(b.Nodes[0].Pos())
+			if len(xb.nodes) > 0 {
+				pos = s.P.Pos(xb.nodes[0].Pos())
 			} else if b.Stmt != nil {
 				pos = s.P.Pos(b.Stmt.Pos())
 			}
-			rev = append(rev, fmt.Sprintf("b%d(%s)@%s", b.Index, b.Kind, pos))
+			tag := ""
+			if xb.inl > 0 {
+				tag = fmt.Sprintf("+%d", xb.inl)
+			}
+			rev = append(rev, fmt.Sprintf("b%d%s(%s)@%s", b.Index, tag, b.Kind, pos))
 		}
 		for l, r := 0, len(rev)-1; l < r; l, r = l+1, r-1 {
 			rev[l], rev[r] = rev[r], rev[l]
@@ -314,8 +344,9 @@ func (s *Scope) Run(q Query) QResult {
 	}
 	for qi := 0; qi < len(queue); qi++ {
 		st := queue[qi].st
-		b := g.Blocks[st.blk]
-		if !b.Live {
+		xb := g.blocks[st.blk]
+		b := xb.b
+		if !xb.live {
 			continue
 		}
 		cur := st
@@ -328,7 +359,22 @@ func (s *Scope) Run(q Query) QResult {
 		}
 		endsInReturn := false
 		endsNoReturn := false
-		for _, top := range b.Nodes {
+		for ni, top := range xb.nodes {
+			if ni == 0 && cur.ret != 0 {
+				if xb.bindObj != nil {
+					cur.nn, cur.nnVal = xb.bindObj, cur.ret
+				}
+				cur.ret = 0
+			} else if cur.nn != nil {
+				// a later assignment to the variable ends the knowledge
+				if as, ok := top.(*ast.AssignStmt); ok {
+					for _, l := range as.Lhs {
+						if id, ok := l.(*ast.Ident); ok && s.Info.ObjectOf(id) == cur.nn {
+							cur.nn, cur.nnVal = nil, 0
+						}
+					}
+				}
+			}
 			events(top, func(sub ast.Node) {
 				if q.Start != nil && q.Start(sub, top) {
 					// an event that is both Target and Start (loop progress queries) is
@@ -382,21 +428,21 @@ func (s *Scope) Run(q Query) QResult {
 			})
 			if rs, ok := top.(*ast.ReturnStmt); ok {
 				endsInReturn = true
-				if cur.started && cur.kind != stPassed && q.ExitIsTarget {
+				if cur.started && cur.kind != stPassed && q.ExitIsTarget && xb.inl == 0 {
 					if !(q.OnlyNilErrorReturns && s.lastResultCertainlyNonNil(rs)) {
 						report(rs, "return reached without passing the barrier")
 					}
 				}
 			}
 		}
-		if len(b.Nodes) > 0 {
-			if es, ok := b.Nodes[len(b.Nodes)-1].(*ast.ExprStmt); ok {
+		if len(xb.nodes) > 0 {
+			if es, ok := xb.nodes[len(xb.nodes)-1].(*ast.ExprStmt); ok {
 				if c, ok := es.X.(*ast.CallExpr); ok && !mayReturn(s.Info)(c) {
 					endsNoReturn = true
 				}
 			}
 		}
-		if len(b.Succs) == 0 {
+		if xb.noSucc && xb.inl == 0 {
 			if b.Kind == cfg.KindSelectAfterCase {
 				continue // a select without default blocks until a case is ready: not an exit
 			}
@@ -405,13 +451,37 @@ func (s *Scope) Run(q Query) QResult {
 			}
 			continue
 		}
-		for i, succ := range b.Succs {
-			facts := s.blockFacts(b, i)
+		for i, succ := range xb.succs {
+			facts := xb.facts[i]
+			if !q.WholeFacts {
+				facts = withoutWhole(facts)
+			}
 			if q.Exempt != nil && len(facts) > 0 && q.Exempt(facts) {
 				continue
 			}
 			nst := cur
-			nst.blk = succ.Index
+			nst.blk = int32(succ)
+			if i < len(xb.retVal) && xb.retVal[i] != 0 {
+				nst.ret = xb.retVal[i]
+				nst.nn, nst.nnVal = nil, 0
+			}
+			if cur.nn != nil {
+				infeasible := false
+				for _, f := range facts {
+					if f.Tag != nil || f.Whole {
+						continue
+					}
+					if o, trueNonNil, ok := nilTest(s.Info, f.Expr); ok && s.rawObj(f.Expr) == cur.nn || (ok && o == cur.nn) {
+						nonNil := f.Val == trueNonNil
+						if nonNil != (cur.nnVal == 1) {
+							infeasible = true
+						}
+					}
+				}
+				if infeasible {
+					continue
+				}
+			}
 			if cur.kind == stPending {
 				for _, f := range facts {
 					if f.Tag != nil {
@@ -476,4 +546,41 @@ func factIdent(info *types.Info, facts []Fact, o types.Object, val bool) bool {
 		}
 	}
 	return false
+}
+
+func withoutWhole(facts []Fact) []Fact {
+	n := 0
+	for _, f := range facts {
+		if f.Whole {
+			n++
+		}
+	}
+	if n == 0 {
+		return facts
+	}
+	out := make([]Fact, 0, len(facts)-n)
+	for _, f := range facts {
+		if !f.Whole {
+			out = append(out, f)
+		}
+	}
+	return out
+}
+
+// rawObj: the (un-aliased) object of the variable tested in a nil comparison.
+func (s *Scope) rawObj(e ast.Expr) types.Object {
+	b, ok := unparen(e).(*ast.BinaryExpr)
+	if !ok {
+		return nil
+	}
+	for _, x := range []ast.Expr{b.X, b.Y} {
+		if id, ok := unparen(x).(*ast.Ident); ok {
+			if o := s.Info.ObjectOf(id); o != nil {
+				if _, isNil := o.(*types.Nil); !isNil {
+					return o
+				}
+			}
+		}
+	}
+	return nil
 }
